@@ -1175,10 +1175,12 @@ def _run_case(sim, case, acc):
             cpu = rng.choice(["6800", "6802", "87c800", "4004", "4040", "z80", "", "87c00"])
             if rng.chance(0.5):
                 img = bytes(rng.below(256) for _ in range(n))
-                argv = ["-cpu", cpu, "-binfile", "/w/i.bin@%s" % rng.choice(["0", "$100", "0xfff0", "$ffffffff", "-1", "x"]),
+                argv = ["-cpu", cpu, "-binfile", "/w/i.bin@%s" % rng.choice(["0", "$100", "0xfff0", "$ffffffff", "-1", "x", "$ff0", "$ffe", "0xfff8", "$fff"]),
                         "-entryaddress", rng.choice(["0", "$100", "0xfff8", "$ffffffff", "x", "0,1,2", "(0,1)", "(0,2),reset", "(%d,1),last" % max(n - 1, 0),
                                                      "(%d,2),v" % max(n - 2, 0), "(%d,2,lsb)" % max(n - 1, 0), "(0,8,msb),big", "(0,9)", "(,)", "(0", "(0,2,xsb)",
-                                                     "(%d,1)" % n, "(0,0)", "(0,2),", "()", "($100,2),r", "(0xfff8,2,lsb),vec"])]
+                                                     "(%d,1)" % n, "(0,0)", "(0,2),", "()", "($100,2),r", "(0xfff8,2,lsb),vec",
+                                                     # the ends of the targets' address spaces (4 KiB, 64 KiB)
+                                                     "0xfff", "0x1000", "0x1001", "0xffff", "0x10000", "$ffe", "($ffe,2)", "($fff,1),e"])]
                 disk = {"/w/i.bin": img}
             else:
                 # a plausible Intel-hex or S-record text with random damage
@@ -1202,7 +1204,8 @@ def _run_case(sim, case, acc):
                 argv = ["-cpu", cpu, "-hexfile", "/w/i.hex", "-entryaddress", rng.choice(["0", "$100", "0xfff8"])]
                 disk = {"/w/i.hex": bytes(txt)}
             if rng.chance(0.2):
-                argv += ["-symbol", rng.choice(["x=0", "=", "x", "x=$10000000000", "lab=0x100"])]
+                argv += ["-symbol", rng.choice(["x=0", "=", "x", "x=$10000000000", "lab=0x100", "0=Vector_5000_x", "0=Vector_9_y", "0=Vector_0_z",
+                                                "$100=Vector_2_ok", "0=Vector__", "0=Vector_-1_n", "1=Vector_11_m", "0xfff=Vector_2_top"])]
             sc = dict(argv=argv, cwd="/w", disk=disk, env={"LANG": "C"})
             run_one(sim, acc, "dasl", sc, "dasl fuzz", "dasl-input")
         acc.sample = {"space": "dasl inputs", "n": case["n"]}
